@@ -160,3 +160,6 @@ Definition holds_content_pg (bound : option N) (srv : server) : bool :=
   | Some b => match find_sch b (sv_schemas srv) with Some s => has_tabs s | None => false end
   | None => negb (match sv_schemas srv with [] => true | ss => only_empty_public ss end)
   end.
+
+Definition run_twice_pg (bound : option N) (b1 b2 : list sstmt) (srv : server) (fs : list bool) : sresult * sresult :=
+  let r1 := run_sess_pg bound b1 srv fs in (r1, run_sess_pg bound b2 (r_srv r1) (r_fs r1)).
